@@ -490,6 +490,34 @@ func (g *bgen) tx() vfexec.TxDesc {
 	return vfexec.TxDesc{AcctKey: g.w.Senders[0].Key, Fee: vfexec.Fee, Execer: []byte(e), ExecOps: ops, LocOps: lops}
 }
 
+// group builds a group of 2..4 members on synthetic executors; usually a later member touches a key an
+// earlier member wrote and reported (hidden / reported with another value / reported; own or foreign
+// namespace; or the head sender's coins account key, only in the last unit of a block).
+func (g *bgen) group(last bool) vfexec.Unit {
+	u := vfexec.Unit{Group: true}
+	n := g.r.Range(2, 4)
+	for len(u.Txs) < n {
+		t := g.tx()
+		if isVf(string(t.Execer)) {
+			u.Txs = append(u.Txs, t)
+		}
+	}
+	if g.r.Chance(4, 5) {
+		j := g.r.Range(1, n-1)
+		i := g.r.Intn(j)
+		shape := []string{"hidden", "differ", "reported"}[g.r.Pick(45, 20, 35)]
+		var acct []byte
+		if last && g.r.Chance(1, 6) {
+			acct = u.Txs[0].AcctKey
+			shape = "hidden"
+		}
+		vfexec.OverlapGroup(u.Txs, i, j, shape, g.r.Chance(3, 5), acct, g.value())
+		out.Stat("group_overlap_"+shape, 1)
+	}
+	out.Stat("groups", 1)
+	return u
+}
+
 func checkBlock(w *vfexec.World, bi int, units []vfexec.Unit) {
 	res := w.Run(bi, units)
 	out.Stat("blocks", 1)
@@ -538,13 +566,16 @@ func checkBlock(w *vfexec.World, bi int, units []vfexec.Unit) {
 					out.Pred("C12|execTxOne|ok-receipt-with-key-outside-grammar", detail+fmt.Sprintf(" key=%q", kv.Key))
 				}
 			}
-			for _, o := range t.ExecOps {
-				if (o.Kind == "S" || o.Kind == "H") && !reported[string(o.K)] {
-					out.Pred("C12|execTxOne|ok-receipt-misses-written-key", detail+fmt.Sprintf(" key=%q", o.K))
+			// the driver's own record of what this member passed to StateDB.Set (not StateDB's key list)
+			for _, k := range res.Writes[i] {
+				if !reported[k] {
+					out.Pred("C12|execTxOne|ok-receipt-misses-written-key", detail+fmt.Sprintf(" key=%q", k))
 				}
 			}
+			out.Stat("driver_recorded_writes", int64(len(res.Writes[i])))
 			for _, o := range t.LocOps {
-				if (o.Kind == "LD" || o.Kind == "LS") && !specLocal(txe, string(o.K)) {
+				// ExecLocal runs during block execution only for ExecLocalSameTime drivers
+				if vfexec.SameTime(txe) && (o.Kind == "LD" || o.Kind == "LS") && !specLocal(txe, string(o.K)) {
 					out.Pred("C12|execLocalTx|local-key-with-foreign-prefix-accepted", detail+fmt.Sprintf(" key=%q", o.K))
 				}
 			}
@@ -620,7 +651,11 @@ func runBlocks() {
 	for i := 0; i < gen.Scale(1200, 20000); i++ {
 		var us []vfexec.Unit
 		for j := g.r.Range(1, 4); j > 0; j-- {
-			us = append(us, vfexec.Unit{Txs: []vfexec.TxDesc{g.tx()}})
+			if g.r.Chance(1, 3) {
+				us = append(us, g.group(j == 1))
+			} else {
+				us = append(us, vfexec.Unit{Txs: []vfexec.TxDesc{g.tx()}})
+			}
 		}
 		checkBlock(w, g.r.Intn(len(w.Bases)), us)
 	}
